@@ -9,6 +9,7 @@ from kv import Case, xn, xb, xl, xlist, xz
 
 ID = "C16"
 MODULE = "C16"
+MAX_NOT_EXECUTED = 25      # harness trouble (load) is retried; more than this many cases without an implementation side fail the run
 IMPORTS = "Bytes RustStd Registry PresentLine RunOrder RunSpec RustStdProofs RegistryProofs PresentLineProofs RunOrderProofs RunSpecProofs"
 PROFILES = ("dev",)
 # C16_V0=1 selects the models of the code as it was before the repairs aa785b7 / e1abeb3 (reversed remove
@@ -62,9 +63,9 @@ def new_listing():
 # alphabet = {add, add with no_override, remove} x priorities; every sequence of every length up to the bound is run on one of the five vectors.
 EXHAUSTIVE = {
     "quick": [(3, [-2, -1, 0, 1, 2, 3]), (4, [0, 1, 2]), (5, [0, 1])],
-    "thorough": [(4, [-2, -1, 0, 1, 2, 3]), (6, [0, 1, 2]), (7, [0, 1])],
+    "thorough": [(4, [-2, -1, 0, 1, 2, 3]), (5, [0, 1, 2]), (7, [0, 1])],
 }
-SAMPLED_8 = {"quick": 0, "thorough": 0.2}     # share of the length-8 sequences over two priorities that is run
+SAMPLED_8 = {"quick": 0, "thorough": 0.1}     # share of the length-8 sequences over two priorities that is run
 
 
 def registry_cases(rng, tier):
@@ -657,20 +658,71 @@ def _py_registry(edits):
     return lists, maps
 
 
+def _reg_oracle(c, i):
+    """the registry clauses read directly on the implementation's output: after every step the edited vector is strictly descending, and it is
+    the vector before with exactly the change the property names (add: that priority bound to the new name; no_override: the greatest free
+    priority at or below; remove: that priority gone); the final listing of all eight lists is what the steps add up to"""
+    try:
+        x = kv.xparse(i)
+        views, final = x[1][0][1], x[1][1]
+        init = c.x[1][0]
+        if init[0] == "L":
+            lists = [{_z(e[1][0]): e[1][1][1] for e in l[1]} for l in init[1][0][1]]
+            maps = [set(k[1] for k in m[1]) for m in init[1][1][1]]
+        elif init[1] == 0:
+            lists, maps = [dict() for _ in range(5)], [set() for _ in range(3)]
+        else:
+            return None
+        reqs = c.x[1][1][1]
+        if len(views) != len(reqs):
+            return None
+        for n, (r, v) in enumerate(zip(reqs, views)):
+            kind, code, prio, name = r[1][0][1], r[1][1][1], _z(r[1][2]), r[1][3][1]
+            if kind < 5:
+                d = dict(lists[kind])
+                refused = False
+                if code == 2:
+                    d.pop(prio, None)
+                elif code == 0:
+                    d[prio] = name
+                else:
+                    p_ = prio
+                    while p_ in d and p_ > I32_MIN:
+                        p_ -= 1
+                    if p_ in d:
+                        refused = True
+                    else:
+                        d[p_] = name
+                if v == ("L", [("N", 2)]):
+                    if not refused:
+                        return "step %d: panic although a free priority exists" % n
+                    continue
+                got = [(_z(e[1][0]), e[1][1][1]) for e in v[1][1][1]]
+                if any(a[0] <= b[0] for a, b in zip(got, got[1:])):
+                    return "step %d: the listing is not strictly descending: %s" % (n, got)
+                if got != sorted(d.items(), reverse=True):
+                    return "step %d: listing %s, the reference map has %s" % (n, got, sorted(d.items(), reverse=True))
+                lists[kind] = d
+            else:
+                m = maps[kind - 5]
+                if code == 2:
+                    m.discard(name)
+                else:
+                    m.add(name)
+                if [k[1] for k in v[1][1][1]] != sorted(m):
+                    return "step %d: keys %s, the reference set has %s" % (n, [k[1] for k in v[1][1][1]], sorted(m))
+        gl = [[(_z(e[1][0]), e[1][1][1]) for e in l[1]] for l in final[1][0][1]]
+        gm = [[k[1] for k in m[1]] for m in final[1][1][1]]
+        if gl != [sorted(d.items(), reverse=True) for d in lists] or gm != [sorted(m) for m in maps]:
+            return "final listing differs from what the steps add up to (an edit touched another list?)"
+    except Exception:   # an output of another shape is the differ's business
+        return None
+    return None
+
+
 def extra_oracle(c, i):
     if c.comp.startswith("reg.ops"):
-        # after every step the listing is strictly descending ("highest priority first", no priority twice)
-        try:
-            x = kv.xparse(i)
-            listings = [v[1][1] for v in x[1][0][1] if v[1][0] == ("N", 0) and v[1][1][0] == "L" and (not v[1][1][1] or v[1][1][1][0][0] == "L")]
-            listings += x[1][1][1][0][1]
-            for l in listings:
-                ps = [_z(e[1][0]) for e in l[1] if e[0] == "L" and len(e[1]) == 2 and e[1][0][0] == "L"]
-                if any(a <= b for a, b in zip(ps, ps[1:])):
-                    return "a listing is not strictly descending: %s" % ps
-        except Exception as e:   # an output of another shape is the differ's business
-            return None
-        return None
+        return _reg_oracle(c, i)
     if c.comp != "order.run":
         return None
     try:
@@ -864,40 +916,65 @@ THEOREMS = [
 
 RULE = ("Registry: for every history of add / add-with-no_override / remove on each of the five sorted extension vectors (and insert/remove on the three "
         "hash maps) the listing after every step equals the reference map's: descending priority, equal priority replaces, no_override takes the "
-        "greatest free priority at or below the requested one (panic exactly when all down to i32::MIN are taken), remove deletes exactly that "
-        "priority, no edit touches another list. '!> ' line: for every line of the grammar the parser returns the names and arguments in order and "
-        "data_start is the index just after the LF; for arbitrary bytes no panic and data_start <= len. Run order: per request the trace of marker "
-        "extensions is Prime* (list order, each seeing the previous rewrite), the path-bound Prepare or else the first matching predicate-bound one, "
-        "the Present extensions (predicate-bound, file-extension, then those of the '!> ' line in line order with exactly their arguments), then "
-        "every Package and every Post extension once, all in descending priority.")
+        "greatest free priority at or below the requested one (when all down to i32::MIN are taken: a panic or a refusal that leaves the vector as it "
+        "was), remove deletes exactly that priority, no edit touches another list; histories also start from what the running Extensions::new() lists. "
+        "'!> ' line: for every line of the grammar the parser returns the names and arguments in order and data_start is the index just after the LF; "
+        "for arbitrary bytes no panic and data_start <= len; reading the arguments from the back gives the reverse, any interleaving of next/next_back "
+        "is a deque. Run order: per request — generated or served from the response cache, GET / HEAD / other method, safe or unsafe path, with or "
+        "without a range, answered by a Prepare extension, a file of the public directory or an error page — the trace of marker extensions is Prime* "
+        "(every one, descending priority, each seeing the URI as the earlier ones left it), then only when the response is generated the path-bound "
+        "Prepare (looked up by the path of the override or request URI) or else the first matching predicate-bound one and the Present extensions "
+        "(predicate-bound, file-extension, then those of the '!> ' line in line order with exactly their arguments, forwards and reversed), then every "
+        "Package and every Post extension once per response, in descending priority; every marker is the closure registered last under its priority / key.")
 ASSUMPTIONS = [
     "priorities are i32 (the model uses Z and makes the checked_sub(1) at i32::MIN explicit); Id equality/order is by priority only, as impl Ord for Id",
-    "run-order theorems are about one request on a host without response cache and with the file system disabled (the fixture); cache hits skip "
-    "Prepare/Present by design (C03) and are outside this property's model",
-    "extension behaviours are arbitrary total functions of the request path in the theorems; the differential run instantiates them by the fixture menu "
-    "(rewrite rules, prefix predicates, static bodies) of harness/src/c16pipe.rs and Model/RunOrder.v",
-    "Path::extension is modelled on the fixture's path domain (segments of [a-z0-9.], no empty/./.. last segment)",
-    "slice::binary_search_by is the transcription of rustc 1.95's branch-free version (compared with the real one on arbitrary slices each run)",
+    "a response is one produced by handle_cache + SendKind::send for a host: the 409 (no such host) and 429 (limiter) answers of handle_connection "
+    "are sent before any host extension is consulted and run no extension; HTTP/2 push (SendKind::Push) runs Package but no Post by design (the push "
+    "extension itself is a Post extension); a client that closes the connection before the head is written gets no Post (send returns early)",
+    "extension behaviours are arbitrary total functions of the request URI in the theorems; the differential run instantiates them by the fixture menu "
+    "(rewrite rules, prefix predicates, static bodies with a server cache preference) of harness/src/c16pipe.rs and Model/RunOrder.v",
+    "the response cache is modelled as far as the run order needs it (look-up PathQuery then Path, stored after Present, GET/HEAD only, the default status "
+    "filter, Full / QueryMatters / None preference): no vary rules, no if-modified-since, no expiry, no size limit, no compression (C03/C04/C06 are about those)",
+    "Path::extension, sanitize_request and the file look-up are modelled on the fixture's URI domain (segments of [a-z0-9.], no percent-encoding, no fragment)",
+    "slice::binary_search_by is the transcription of rustc 1.95's branch-free version; it is compared exactly with the real one on partitioned slices "
+    "(all the registry can produce) and only for totality / index range on others, where std leaves the result unspecified",
+    "not fixed by the property and therefore compared by class: the status of an error response (any 4xx/5xx is one class), panic vs. refusal when "
+    "no_override finds no free priority, which of two different override URIs wins (not generated), the content of Extensions::new() (read from the harness)",
 ]
 TRUSTED = [
-    "hand transcription of add_sorted_list!/remove_sorted_list!, Extensions::{add,remove,get}_*, Extensions::new, resolve_* (src/extensions.rs), their call order in "
-    "src/lib.rs and of utils/src/extensions.rs (PresentExtensions::new and the two iterators), validated by the differential run",
-    "harness/src/c16.rs, harness/src/c16pipe.rs (marker extensions, loopback client: one connection per request, the server task is joined before the log is read)",
+    "hand transcription of add_sorted_list!/remove_sorted_list!, Extensions::{add,remove,get}_*, resolve_* (src/extensions.rs), of handle_cache / get_response / "
+    "handle_request / SendKind::send (src/lib.rs) as far as they decide which extensions run, and of utils/src/extensions.rs (PresentExtensions::new, the two "
+    "iterators incl. next_back), validated by the differential run",
+    "Model/RunSpec.v: the declarative reading of the property's run-order clauses (pinned by the spec_*_is theorems)",
+    "harness/src/c16.rs, harness/src/c16pipe.rs (marker extensions logging the index of the edit that registered them, loopback client: one connection per "
+    "request, the server task is joined before the log is read; temp public directory per scenario)",
+    "driver/props/c16.py: generators, the class-wise comparison named in the assumptions, and the model-free oracles (Python reference registry; strictly "
+    "descending listings; Prime/Package/Post = all registered, each once, highest priority first, in every reply)",
 ]
 LEVEL_TEXT = ("Machine-checked Coq theorems (no axioms) over transcriptions of the registry macros on rustc 1.95's binary_search_by, of the '!> ' line "
-              "parser with its iterators, and of the resolve_* drivers: binary_search_by returns Ok i iff element i is the target and Err i iff i is the "
-              "unique insertion point on every strictly sorted slice; every history of add / no_override / remove for all priorities yields exactly the "
-              "reference map's listings (refinement by induction over the history, invariant: strictly descending), also for the whole Extensions value "
-              "from empty() and new(); the parser never panics and data_start <= len for arbitrary bytes, and for every line of the grammar (any words, any "
-              "runs of spaces, '&>' separators also trailing, LF or CRLF) it returns the names and arguments in order with data_start just after the LF; "
-              "Prime extensions run sequentially each seeing the previous rewrite, a path-bound Prepare wins and only the first matching predicate-bound one "
-              "runs, Present extensions run in line order with their arguments, every Package and Post runs exactly once in descending priority. The models "
-              "are tied to the repository on every run by a differential run of the real Extensions::{add,remove,get}_*, PresentExtensions and of real "
-              "requests through kvarn::handle_connection with marker extensions; each case is also compared with the executable specification "
-              "(reference map / token-level reading of the line / right-hand side of present_line_spec).")
+              "parser with its iterators (next and next_back), and of the request path handle_cache -> get_response -> handle_request -> SendKind::send "
+              "with the resolve_* drivers: binary_search_by returns Ok i iff element i is the target and Err i iff i is the unique insertion point on "
+              "every strictly sorted slice; every history of add / no_override / remove for all priorities yields exactly the reference map's listings "
+              "(refinement by induction over the history, invariant: strictly descending), also for the whole Extensions value from empty(), new() and "
+              "any descending start state; the hash maps insert/replace/remove as maps; the parser never panics and data_start <= len for arbitrary "
+              "bytes, and for every line of the grammar (any words, any runs of spaces, '&>' separators also trailing, LF or CRLF) it returns the names "
+              "and arguments in order with data_start just after the LF; iter().rev() yields the reverse and every next/next_back interleaving is a "
+              "deque on the arguments. Run order: a DECLARATIVE specification (Model/RunSpec.v: the registry read as maps; Prime: all, once, descending, "
+              "each seeing the previous rewrite; Prepare: the path-bound one, else the matching predicate-bound one of highest priority; Present per "
+              "the first line; every Package and Post once for every response) that mentions neither the drivers nor the vector order is proved of "
+              "the model for every host with descending vectors, every cache state and every request (method, query, unsafe path, range), for whole "
+              "histories on hosts built by any edit sequence through the macros' model, and proved to determine answer, trace and cache uniquely; a "
+              "response served from the cache runs neither Prepare nor Present but every Prime, Package and Post. The models are tied to the "
+              "repository on every run by a differential run of the real Extensions::{add,remove,get}_*, PresentExtensions (forward, reversed, "
+              "interleaved) and of real request histories through kvarn::handle_connection with marker extensions (response cache on and off, files with "
+              "'!> ' lines, HEAD/POST, ranges, unsafe paths, queries, replaced closures); each case is also compared with the executable specification "
+              "(reference map / token-level reading of the line / deque) and checked by model-free oracles.")
 LEVEL_NOTE = ("Trusted: Coq kernel, extraction (ExtrOcamlBasic) reduced by an in-kernel recheck sample, the hand transcriptions as validated by the "
-              "differential run. Not covered: extensions run on a cache hit (none but Package/Post), HTTP/2 push (Post is skipped there by design), "
-              "async interleavings of two requests (extensions are immutable during serving), Path::extension outside the fixture's path domain, "
-              "next_back of the argument iterator. The three repaired defects are kept as _v0 refutation witnesses.")
+              "differential run, the declarative specification as a reading of the property. Bounded-exhaustive part of the quantifier as run: quick "
+              "every operation sequence up to length 3 over 6 priorities, 4 over 3, 5 over 2 (+12000 sampled up to 8); thorough up to 4 over 6, 5 over 3, "
+              "7 over 2 and 10 % of length 8 over 2 (the theorem covers all lengths and priorities). Not covered: HTTP/2 and push, streaming (future) "
+              "responses, vary variants and 304 revalidation on a cache hit, async interleavings of two requests (extensions are immutable during "
+              "serving), Path::extension / sanitize outside the fixture's URI domain. The repaired defects are kept as _v0 refutation witnesses.")
 TECHNIQUE = ("Coq proof (loop invariant for binary search, refinement of the reference map for all histories, parser correctness for all inputs / all "
-             "grammar lines, run-order lemmas for arbitrary behaviours) + differential correspondence model vs. implementation (direct calls and real requests)")
+             "grammar lines, double-ended iterator = deque, pipeline model satisfies a declarative run-order specification that it is proved to "
+             "determine) + differential correspondence model vs. implementation (direct calls and real request histories) + model-free oracles")
